@@ -253,8 +253,36 @@ def run(ctx):
                 break
             if ctx.tier == "quick" and ctx.elapsed() > 40:
                 break
-        # writer
+        # large chunks from a file opened by path: whatever fast path the reader takes for big reads, no descriptor may outlive close()
         from nptdms import ChannelObject
+        big = os.path.join(tmp, "big.tdms")
+        with W(big) as w:
+            w.write_segment([ChannelObject("g", "c", np.arange(20000, dtype=np.float64)), ChannelObject("g", "d", np.arange(20000, dtype=np.int32))])
+        for step in ("index", "chunks", "slice", "read"):
+            before = open_fds(tmp)
+            stats["cases"] += 1
+            distinct.add(("large chunk", step))
+            kept = []
+            try:
+                if step == "read":
+                    kept.append(T.read(big)["g"]["c"][:])
+                else:
+                    with T.open(big) as g:
+                        if step == "index":
+                            kept.append(g["g"]["c"][12345])
+                        elif step == "chunks":
+                            kept += [c[:] for c in g["g"]["c"].data_chunks()]
+                        else:
+                            kept.append(g["g"]["d"][100:15000])
+                        g.close()
+            except Exception as ex:  # noqa
+                viol("reading a file with a 160 kB chunk (%s) raised %r" % (step, ex), case="large chunk", via="path", api=step)
+            stats["steps"] += 1
+            if open_fds(tmp) != before:
+                viol("after TdmsFile.%s of a file with large chunks (%s) descriptors remain open while the returned data is still referenced: %s" % (
+                    "read" if step == "read" else "open ... close", step, open_fds(tmp)), case="large chunk", via="path", api=step)
+            del kept
+        # writer
         for target in ("s0", "s1", "p0", "p1"):
             for boom in (False, True):
                 stats["writer"] += 1
